@@ -81,6 +81,22 @@ def run():
             _quiet(lambda: c.append("X"))
     _quiet(lambda: progressions.substitute(["I", "IV", "V7", "VIIdim7"], 3, 2))
     _quiet(lambda: progressions.substitute_harmonic(["V7"], 0))
+    # every substitution rule, where it applies and where it does not, with the caller adding to the list it got
+    for fn in (progressions.substitute_harmonic, progressions.substitute_minor_for_major,
+               progressions.substitute_major_for_minor, progressions.substitute_diminished_for_diminished,
+               progressions.substitute_diminished_for_dominant):
+        for prog in (["I"], ["IV"], ["VIm"], ["VIIdim"], ["V7"], ["IIm7"], ["bIIIM7"]):
+            for ign in (False, True):
+                r = _quiet(lambda: fn(list(prog), 0, ign))
+                if isinstance(r, list):
+                    _quiet(lambda: r.extend(["?warm-up", 7]))
+    for prog in (["I", "I"], "V7", ["bVIIm7", "IIdim"]):
+        r = _quiet(lambda: progressions.to_chords(prog, "Eb"))
+        if isinstance(r, list):
+            for ch in r:
+                if isinstance(ch, list):
+                    _quiet(lambda: ch.reverse())
+            _quiet(lambda: r.append(["?warm-up"]))
     _quiet(lambda: progressions.determine(["C", "E", "G"], "C"))
     for v in (0.25, 0.5, 4, 8):
         _quiet(lambda: value.determine(value.triplet(v)))
